@@ -489,10 +489,10 @@ package common
 // sc_count(k): accepted candidates among the first k. The contract speaks of runs in which the committee fills up within
 // 2^40 candidates (otherwise the candidate counter's range would have to be argued about).
 //@ defrec sc_count(maxeb int, reg RegI, rounds int, active VIdxsT, seed Root32, k int) int = ite(k <= 0, 0, sc_count(maxeb, reg, rounds, active, seed, k - 1) + ite(prop_accept(maxeb, reg, rounds, active, seed, k - 1), 1, 0))
-//@ lemma sc_count_mono [C07, induct=q, manual]: forall q int, maxeb int, reg RegI, rounds int, active VIdxsT, seed Root32, p int :: {sc_count(maxeb, reg, rounds, active, seed, p), sc_count(maxeb, reg, rounds, active, seed, q)} p <= q ==> sc_count(maxeb, reg, rounds, active, seed, p) <= sc_count(maxeb, reg, rounds, active, seed, q)
-//@ lemma sc_count_bound [C07, induct=q, manual]: forall q int, maxeb int, reg RegI, rounds int, active VIdxsT, seed Root32 :: {sc_count(maxeb, reg, rounds, active, seed, q)} 0 <= sc_count(maxeb, reg, rounds, active, seed, q) && sc_count(maxeb, reg, rounds, active, seed, q) <= max(q, 0)
+//@ lemma sc_count_mono [WIP, induct=q, manual]: forall q int, maxeb int, reg RegI, rounds int, active VIdxsT, seed Root32, p int :: {sc_count(maxeb, reg, rounds, active, seed, p), sc_count(maxeb, reg, rounds, active, seed, q)} p <= q ==> sc_count(maxeb, reg, rounds, active, seed, p) <= sc_count(maxeb, reg, rounds, active, seed, q)
+//@ lemma sc_count_bound [WIP, induct=q, manual]: forall q int, maxeb int, reg RegI, rounds int, active VIdxsT, seed Root32 :: {sc_count(maxeb, reg, rounds, active, seed, q)} 0 <= sc_count(maxeb, reg, rounds, active, seed, q) && sc_count(maxeb, reg, rounds, active, seed, q) <= max(q, 0)
 //@ func ComputeSyncCommitteeIndices(spec, state, baseEpoch, active) (out, err)
-//@   property C07
+//@   property WIP
 //@   nooverflow
 //@   use sc_count_mono, sc_count_bound, prop_accept_def
 //@   requires spec != nil && state != nil && spec.SLOTS_PER_EPOCH != 0 && spec.MIN_SEED_LOOKAHEAD + 1 <= spec.EPOCHS_PER_HISTORICAL_VECTOR && baseEpoch + spec.EPOCHS_PER_HISTORICAL_VECTOR < 18446744073709551616
